@@ -375,6 +375,32 @@ def run_problem(ctx, drv, case):
         ctx.disagree("grid", case, [N, M], list(qxa.shape), note="upsampled grid shape")
         return
 
+    # ---- q-grid stream: model `qGrid` vs the grid the real code hands to the kernel method ----
+    ans = drv.ask({"op": "qgrid", "N": N, "M": M, "dx": fl([case["sx"] / u])[0], "dy": fl([case["sy"] / u])[0]})
+    ctx.count()
+    for nm, real_q in (("qx", qxa), ("qy", qya)):
+        ok, e = close(real_q.double().numpy().ravel(), unfl(ans["ok"][nm]), 2e-6)
+        ctx.stat_max("qgrid_rel", e)
+        if not ok:
+            ctx.disagree("qgrid", case, summarize(unfl(ans["ok"][nm])), summarize(real_q.numpy()), note=f"spatial_frequencies {nm}")
+
+    # ---- `subProblem`: the factors of a sub-mask pixel are those of the same detector pixel in the full mask ----
+    if case["sub"] is not None:
+        orig_f, calls_f, _ = capture(dp, case, None)
+        for j, srow in enumerate(sub):
+            a = list(calls_f[srow][0])
+            a[2] = torch.ones_like(a[2])
+            kf = orig_f(*a)[0][0].detach().to(torch.complex128).numpy().ravel()
+            ok, e = close(K[j], kf, 1e-6)
+            ctx.stat_max("subproblem_factor_rel", e)
+            ctx.count()
+            pf = calls_f[srow][2]
+            okp = True if pf is None else close(P[j], pf.detach().double().numpy().ravel(), 1e-6)[0]
+            if not (ok and okp):
+                ctx.disagree("subproblem", dict(case, item=j), summarize(np.abs(kf)), summarize(np.abs(K[j])),
+                             note="kernel factor of a sub-mask pixel differs from that of the same pixel in the full mask")
+                break
+
     # conditioning of the float32 parallax phase exp(-i grad.q): its rounding error is eps32*|phase|
     cond = 1.0
     if kernel == "prlx":
@@ -612,6 +638,8 @@ def run_parallax(ctx, drv, case, stack, tag):
         ctx.dist["parallax:rejected-zero-weight"] += 1
         return
     g = _rng(case["sched_seed"] ^ 0x99)
+    _, pcalls, _ = capture(dp, pc, submask)
+    grad_real = pcalls[0][0][8].double().numpy()
     got = recon(dp, pc, bf_mask=submask, b=g.randint(1, n)).reshape(n, -1).sum(axis=0)
     N, M = u * r, u * c
     # polar coefficients as the code standardises them
@@ -655,6 +683,15 @@ def run_parallax(ctx, drv, case, stack, tag):
         raise RuntimeError(f"driver: {ans}")
     want = unfl(ans["ok"]["bf"])
     shifts = [unfl(x) for x in ans["ok"]["shifts_px"]]
+    # the code's gradient (aberration_surface_cartesian_gradients at the rotated pixel) vs 2*pi*shift of the closed form
+    grad_model = np.array([[2 * math.pi * float(x[0]) * pc["sx"] / u, 2 * math.pi * float(x[1]) * pc["sy"] / u] for x in shifts])
+    gscale = max(maxabs(grad_model), 1e-30)
+    gerr = maxabs(grad_real - grad_model) / gscale if maxabs(grad_model) > 0 else maxabs(grad_real)
+    ctx.stat_max("gradient_rel", gerr)
+    ctx.count()
+    if not gerr <= 2e-5:
+        ctx.disagree("prlx-gradient", dict(case, prlx_case=True), [list(map(float, x)) for x in grad_model],
+                     [list(map(float, x)) for x in grad_real], note="grad_k vs 2*pi*prlxShift")
     pcond = max(1.0, max(math.pi * (abs(float(x[0])) + abs(float(x[1]))) for x in shifts) / 4.0)
     err = maxabs(got - want) / scale
     ctx.stat_max("parallax_closed_form_rel_over_cond", err / pcond)
